@@ -99,10 +99,13 @@ func Locate(p P2, ring []P2) int {
 		if aAbove == bAbove {
 			continue
 		}
-		// x of the intersection with the horizontal line through p, compared with p.X:
-		// xi = a.X + (p.Y-a.Y)*(b.X-a.X)/(b.Y-a.Y)
-		xi := add(a.X, quo(mul(sub(p.Y, a.Y), sub(b.X, a.X)), sub(b.Y, a.Y)))
-		if xi.Cmp(p.X) > 0 {
+		// the rightward ray crosses the edge iff p lies strictly left of the edge
+		// directed upwards (p is not on the edge: handled above)
+		lo, hi := a, b
+		if aAbove {
+			lo, hi = b, a
+		}
+		if Orient(lo, hi, p) > 0 {
 			crossings++
 		}
 	}
